@@ -41,6 +41,10 @@ struct Handle {
 	std::string pending_name;
 	FILE *fp = nullptr;
 	char *buf = nullptr;
+	// coalescing of the byte-wise reads glibc issues on an unbuffered cookie stream
+	bool merge_ok = false;
+	uint64_t merge_end = 0, merge_len = 0, merge_gen = 0;
+	size_t merge_idx = 0;
 };
 
 struct State {
@@ -57,6 +61,7 @@ struct State {
 	std::map<std::string, uint64_t> fired;
 	Stats stats;
 	std::vector<char *> dead_bufs;
+	uint64_t log_gen = 1;   // bumped whenever the log is cleared
 };
 
 State &S() { static State *s = new State(); return *s; }
@@ -104,6 +109,7 @@ void push(Op &&op) {
 // one simulated write(2): returns bytes persisted, or -1 with errno set
 ssize_t kwrite(Handle &h, const uint8_t *p, size_t n) {
 	State &s = S();
+	h.merge_ok = false;
 	uint64_t idx = s.counts[OP_WRITE]++;
 	Op op; op.kind = OP_WRITE; op.path = h.path; op.handle = h.id; op.len = n;
 	uint64_t off = h.append ? h.file->data.size() : h.pos;
@@ -182,6 +188,17 @@ ssize_t ck_read(void *c, char *buf, size_t size) {
 	Handle &h = *static_cast<Handle *>(c);
 	State &s = S();
 	s.stats.cookie_reads++;
+	// glibc refills an unbuffered cookie stream one byte at a time (generic
+	// underflow path), where a real descriptor would be read directly into the
+	// caller's buffer. Consecutive 1-byte reads are therefore folded into one
+	// simulated read(2) of up to 2880 bytes: one op, one fault opportunity.
+	if (size == 1 && h.merge_ok && h.rd && !h.closed && h.merge_end == h.pos && h.merge_len < 2880 && h.pos < h.file->data.size()) {
+		*buf = (char)h.file->data[h.pos];
+		h.pos++; h.merge_end = h.pos; h.merge_len++;
+		if (h.merge_gen == s.log_gen && h.merge_idx < s.log.size()) { Op &m = s.log[h.merge_idx]; m.len++; m.done++; }
+		return 1;
+	}
+	h.merge_ok = false;
 	uint64_t idx = s.counts[OP_READ]++;
 	Op op; op.kind = OP_READ; op.path = h.path; op.handle = h.id; op.len = size; op.off = h.pos;
 	if (!h.rd || h.closed) { op.err = EBADF; push(std::move(op)); errno = EBADF; return -1; }
@@ -209,13 +226,20 @@ ssize_t ck_read(void *c, char *buf, size_t size) {
 	if (can) memcpy(buf, d.data() + h.pos, can);
 	h.pos += can;
 	op.done = can;
+	bool start_merge = size == 1 && can == 1 && op.fault.empty();
 	push(std::move(op));
+	if (start_merge) {
+		h.merge_ok = true; h.merge_end = h.pos; h.merge_len = 1;
+		h.merge_gen = s.log_gen; h.merge_idx = s.log.empty() ? 0 : s.log.size() - 1;
+		if (!s.log_reads) h.merge_gen = 0;
+	}
 	return (ssize_t)can;
 }
 
 int ck_seek(void *c, off64_t *off, int whence) {
 	Handle &h = *static_cast<Handle *>(c);
 	State &s = S();
+	h.merge_ok = false;
 	uint64_t idx = s.counts[OP_SEEK]++;
 	Op op; op.kind = OP_SEEK; op.path = h.path; op.handle = h.id; op.len = (uint64_t)whence;
 	if (const Fault *f = match("seek", idx)) {
@@ -404,6 +428,7 @@ void reset() {
 	s.by_fp.clear();
 	s.files.clear();
 	s.log.clear();
+	s.log_gen++;
 	s.log_reads = true;
 	s.cfg = Config();
 	s.chunk_rng = Rng(0, "chunk");
@@ -444,7 +469,7 @@ void set_config(const Config &c) {
 const Config &config() { return S().cfg; }
 
 const std::vector<Op> &oplog() { return S().log; }
-void clear_oplog() { S().log.clear(); }
+void clear_oplog() { S().log.clear(); S().log_gen++; }
 void set_log_reads(bool on) { S().log_reads = on; }
 
 void arm(const std::vector<Fault> &faults) {
